@@ -11,7 +11,47 @@ from ..facts import strip, sub, locstr, AnalysisBroken
 LOOPS = ('ForStmt', 'WhileStmt', 'CXXForRangeStmt', 'DoStmt')
 
 
+QUANTIFIERS = {'std::all_of': 'all', 'std::any_of': 'any', 'std::none_of': 'none'}
+
+
+def quantifier_call(n):
+    """for  std::all_of / any_of / none_of(range, lambda)  whose lambda returns a membership test: +1 if the call is true only when
+    EVERY element is a member, -1 if true means some / every element is NOT a member, 2 if it is the existential "some element
+    is a member" (says nothing about all); 0 if n is not such a call"""
+    if n['k'] != 'CallExpr' or n.get('callee', {}).get('q', '') not in QUANTIFIERS:
+        return 0
+    lam = [x for x in sub(n) if x['k'] == 'LambdaExpr']
+    if not lam:
+        return 0
+    rets = [x for x in sub(lam[0]) if x['k'] == 'ReturnStmt' and x.get('c')]
+    if len(rets) != 1:
+        return 0
+    e = strip(rets[0]['c'][0])
+    neg = False
+    while e is not None and e['k'] == 'UnaryOperator' and e.get('op') == '!':
+        neg = not neg
+        e = strip(e['c'][0])
+    pol = _member_plain(e) if e is not None else 0
+    if not pol:
+        return 0
+    if neg:
+        pol = -pol
+    kind_ = QUANTIFIERS[n['callee']['q']]
+    if kind_ == 'all':
+        return 1 if pol > 0 else -1
+    if kind_ == 'none':
+        return 1 if pol < 0 else -1
+    return -1 if pol < 0 else 2
+
+
 def member(n):
+    qc = quantifier_call(n)
+    if qc:
+        return qc
+    return _member_plain(n)
+
+
+def _member_plain(n):
     k = n['k']
     q = n.get('callee', {}).get('q', '')
     if k in ('CallExpr', 'CXXMemberCallExpr') and q.endswith('DOMUtils::isDescendant'):
@@ -42,7 +82,7 @@ def kind(n):
 
 
 def has_member_test(n):
-    return any(member(x) for x in sub(n))
+    return any(_member_plain(x) for x in sub(n))
 
 
 def check(rep, rule, fb, funcs, tag):
@@ -73,7 +113,7 @@ def check(rep, rule, fb, funcs, tag):
                 then = kids[1] if len(kids) > 1 else None
                 if then is None:
                     continue
-                lps = [x for x in sub(then) if x['k'] in LOOPS and has_member_test(x)]
+                lps = [x for x in sub(then) if (x['k'] in LOOPS and has_member_test(x)) or quantifier_call(x)]
                 if not lps:
                     continue
                 if any(a['k'] in LOOPS for a in f.ancestors(n)):
